@@ -82,6 +82,103 @@ func runC19(c *Ctx, r *Rec) {
 			}
 			construct := role + "." + reg.Name()
 			if !written {
+				// the registry may be handed, together with its mutex, to a helper that does the
+				// get-or-create (bindClass(registry, &mutex, create)): inside the helper every use of
+				// the map parameter lies in a lock region of the mutex parameter, in a single region
+				carried, cbad := false, ""
+				for _, rf := range refs {
+					chain := pathTo(rf.fd.Body, rf.id)
+					var call *ast.CallExpr
+					for j := len(chain) - 2; j >= 0 && call == nil; j-- {
+						if cl, ok := chain[j].(*ast.CallExpr); ok {
+							for _, a := range cl.Args {
+								if ast.Unparen(a) == ast.Expr(rf.id) {
+									call = cl
+								}
+							}
+						}
+					}
+					if call == nil {
+						continue
+					}
+					cf := calleeOf(info, call)
+					if cf == nil {
+						continue
+					}
+					hd := c.declOf(cf.Origin())
+					if hd == nil {
+						hd = c.declOf(cf)
+					}
+					if hd == nil || hd.Body == nil || c.infoFor(hd) != info {
+						continue
+					}
+					hps := paramObjs(info, hd)
+					var mapP, mtxP *types.Var
+					for i, a := range call.Args {
+						if i >= len(hps) {
+							break
+						}
+						if ast.Unparen(a) == ast.Expr(rf.id) {
+							mapP = hps[i]
+						}
+						if u, ok := ast.Unparen(a).(*ast.UnaryExpr); ok && u.Op == token.AND {
+							if mo, ok := identObj(info, u.X).(*types.Var); ok && isSyncType(mo.Type()) {
+								mtxP = hps[i]
+							}
+						}
+					}
+					if mapP == nil {
+						continue
+					}
+					// does the helper write the map?
+					hwrites := false
+					var uses []*ast.Ident
+					ast.Inspect(hd.Body, func(x ast.Node) bool {
+						if id, ok := x.(*ast.Ident); ok && info.Uses[id] == types.Object(mapP) {
+							uses = append(uses, id)
+						}
+						if as, ok := x.(*ast.AssignStmt); ok {
+							for _, l := range as.Lhs {
+								if ix, ok := ast.Unparen(l).(*ast.IndexExpr); ok && identObj(info, ix.X) == types.Object(mapP) {
+									hwrites = true
+								}
+							}
+						}
+						return true
+					})
+					if !hwrites {
+						continue
+					}
+					carried = true
+					if mtxP == nil {
+						cbad = fmt.Sprintf("the registry is handed to %s, which writes it, without a mutex", hd.Name.Name)
+						continue
+					}
+					hg := newFG(info, hd.Body)
+					li := computeLock(hg, info, objKey(mtxP))
+					for _, id := range uses {
+						if h, ok := li.heldAt(id); !ok || !h {
+							cbad = fmt.Sprintf("%s uses the registry it is handed at %s without holding the mutex it is handed with it: a lookup outside the lock races with the insert of another goroutine (concurrent map read and map write)", hd.Name.Name, c.pos(id.Pos()))
+						}
+					}
+					env := &symEnv{info: info}
+					locks := 0
+					for _, b := range hg.order {
+						for _, n := range b.Nodes {
+							if mutexOp(info, env, n, objKey(mtxP)) == "lock" {
+								locks++
+							}
+						}
+					}
+					if locks > 1 && cbad == "" {
+						cbad = fmt.Sprintf("%s takes the mutex %d times: the lookup and the insert of the get-or-create are not in one critical section", hd.Name.Name, locks)
+					}
+				}
+				if carried {
+					nreg++
+					r.check(cbad == "", "D1-registry-lock", construct, c.pos(reg.Pos()), "handed with its mutex to a helper that uses it only inside one lock region", cbad)
+					continue
+				}
 				// a constant table: no lock needed (D3 covers that it is never assigned)
 				r.ok("D1-registry-lock", construct, c.pos(reg.Pos()), "package-level map never written after initialisation")
 				continue
@@ -125,6 +222,48 @@ func runC19(c *Ctx, r *Rec) {
 							bad = fmt.Sprintf("%s takes %s %d times: the lookup and the insert of the get-or-create are not in one critical section (two goroutines can both create the class)", c.fdName(fd), m.Name(), locks)
 						}
 						break
+					}
+				}
+				if held == nil && !ast.IsExported(fd.Name.Name) {
+					// an unexported helper ("the caller must hold the lock"): judged where it is called
+					hfn := c.funcOf(fd)
+					sites := 0
+					var callerHeld *types.Var
+					okAll := true
+					for _, cfd := range c.allFuncDecls(role) {
+						if cfd.Body == nil || cfd == fd {
+							continue
+						}
+						var calls []*ast.CallExpr
+						ast.Inspect(cfd.Body, func(x ast.Node) bool {
+							if call, ok := x.(*ast.CallExpr); ok && hfn != nil {
+								if cf := calleeOf(info, call); cf != nil && cf.Origin() == hfn.Origin() {
+									calls = append(calls, call)
+								}
+							}
+							return true
+						})
+						if len(calls) == 0 {
+							continue
+						}
+						cg := newFG(info, cfd.Body)
+						for _, call := range calls {
+							sites++
+							var hm *types.Var
+							for _, m := range mutexes {
+								li := computeLock(cg, info, objKey(m))
+								if h, ok := li.heldAt(call); ok && h {
+									hm = m
+								}
+							}
+							if hm == nil || (callerHeld != nil && callerHeld != hm) {
+								okAll = false
+							}
+							callerHeld = hm
+						}
+					}
+					if sites > 0 && okAll {
+						held = callerHeld
 					}
 				}
 				if held == nil {
